@@ -143,11 +143,47 @@ def c19(run):
         "seeded histories that set/clear write key, read key, read-only mode and the enabled flag and call every "
         "operation with no key / wrong key / right key; TLC checks refusal class and that storage is unchanged on refusal")
 
+def limits_stage(run):
+    """Breaker and throttle: models, then timed runs validated with brackets."""
+    run.model_check("Breaker.tla", "MC_breaker.cfg")
+    # the variants that must NOT pass keep the model honest
+    for cfg, needle in (("MC_breaker_always.cfg", "Recovers is violated"), ("MC_breaker_onshift.cfg", "RateBound is violated")):
+        rc, out, dt = run.tlc("Breaker.tla", cfg, label=cfg)
+        if needle not in out:
+            raise Broken("Breaker.tla %s: expected '%s'\n%s" % (cfg, needle, out[-600:]))
+    run.model_check("Throttle.tla", "MC_throttle.cfg")
+    drv = run.build("limitdrv")
+    out = os.path.join(run.tmp, "limits.ndjson")
+    run.run_bin(drv, ["-seed", str(run.seed), "-scale", "1" if run.tier == "quick" else "8", "-out", out], timeout=1500)
+    rejected, _ = run.validate("LimitTrace.tla", "LimitTrace.cfg", out, "limits")
+    with open(out) as f:
+        lines = f.read().split("\n")
+    for ln in rejected:
+        e = json.loads(lines[ln - 1])
+        if e["ev"] == "breaker":
+            adm = sorted([c["t0"] for c in e["calls"] if c["closed"]])
+            what = "breaker limit=%d interval=%dus pattern=%s workers=%d: %d calls, admissions at (us) %s" % (
+                e["limit"], e["interval_us"], e["pattern"], e["workers"], len(e["calls"]), adm[:12])
+        else:
+            what = "throttle pendingLimit=%d attempts=%d: results %s max_pending_sampled=%d pending_end=%d" % (
+                e["pending_limit"], e["attempts"], [(s["res"], s["ran"]) for s in e["subs"]][:16], e["max_pending_sampled"], e["pending_end"])
+        run.violation(what, {"event": e}, stage="limits")
+    for ln in (2, len(lines) - 2):
+        e = json.loads(lines[ln - 1])
+        run.sample({k: (v if not isinstance(v, list) else v[:4]) for k, v in e.items()})
+    run.assumptions += ["breaker / throttle timing: verdicts only from time brackets taken around each call (rate: limit+1 admissions "
+                        "certainly within one interval; recovery: refusal more than two intervals after every earlier admission; "
+                        "waiting submissions: brackets shrunk by 5 ms)"]
+
 def c20(run):
+    limits_stage(run)
     return engine_prop(run, ["MC_guards.cfg"],
         [dict(profile="capacity", n=n(run, 60, 800))],
         "capacity: seeded add/remove histories around MaxFacts=3 (facts, rules, property facts), StateSize after adds; "
-        "TLC checks refusal exactly at capacity and no side effect of a refused add")
+        "TLC checks refusal exactly at capacity and no side effect of a refused add. Breaker: limits 1/2/5 x intervals 200/400 ms x "
+        "arrival patterns (burst then polling 10x faster than a tick, fast/slow/random polling, repeated bursts; 1-4 concurrent callers); "
+        "throttle: 12-18 staggered submissions against a breaker that never admits / admits every 50 ms, pendingLimit 0/1/3; every "
+        "scenario validated by TLC (LimitTrace) against the bounds proved on Breaker.tla / Throttle.tla")
 
 def c04(run):
     return engine_prop(run, ["MC_rules.cfg"],
